@@ -48,6 +48,7 @@ EXTRAS = ["none", "none", "none", "none", "obs-fold", "fold-hides-cl", "fold-hid
           "nul", "nul-name", "ws-colon", "cr-only-line"]
 SIZE_FMTS = ["hex", "hex", "hex", "hex", "HEX", "zeros", "0x", "plus", "neg", "space-lead", "space-trail", "ext", "ext-bws", "ext-quoted", "huge", "huge2", "empty", "ext-lf"]
 DATA_EOLS = ["crlf", "crlf", "crlf", "crlf", "lf", "none", "cr"]
+SIZE_EOLS = ["crlf", "crlf", "crlf", "crlf", "crlf", "lf", "cr", "crcrlf"]   # terminator of one chunk-size line (and of the last-chunk line)
 LASTS = ["0", "0", "0", "00", "0;x=y", "0x0"]
 FINALS = ["crlf", "crlf", "crlf", "crlf", "lf", "missing"]
 
@@ -81,6 +82,8 @@ def _msg():
         "size_fmt": st.sampled_from(SIZE_FMTS),
         "size_idx": st.integers(0, 1),
         "data_eol": st.sampled_from(DATA_EOLS),
+        "size_eol": st.sampled_from(SIZE_EOLS),
+        "last_eol": st.sampled_from(SIZE_EOLS),
         "last": st.sampled_from(LASTS),
         "final": st.sampled_from(FINALS),
         "trailer": st.sampled_from([False, False, False, True]),
@@ -189,13 +192,14 @@ def _chunked(parts, m):
     first_line = None
     for i, p in enumerate(parts):
         fmt = m["size_fmt"] if i == m["size_idx"] % max(1, len(parts)) else "hex"
-        line = _size_text(fmt, len(p)) + b"\r\n"
+        eols = {"crlf": b"\r\n", "lf": b"\n", "cr": b"\r", "crcrlf": b"\r\r\n"}
+        line = _size_text(fmt, len(p)) + (eols[m.get("size_eol", "crlf")] if i == m["size_idx"] % max(1, len(parts)) else b"\r\n")
         if first_line is None:
             first_line = len(line)
         out += line + p
         de = m["data_eol"] if i == len(parts) - 1 else "crlf"
         out += {"crlf": b"\r\n", "lf": b"\n", "none": b"", "cr": b"\r"}[de]
-    out += m["last"].encode() + b"\r\n"
+    out += m["last"].encode() + {"crlf": b"\r\n", "lf": b"\n", "cr": b"\r", "crcrlf": b"\r\r\n"}[m.get("last_eol", "crlf")]
     if m["trailer"]:
         out += b"X-Trail: v\r\n"
     out += {"crlf": b"\r\n", "lf": b"\n", "missing": b""}[m["final"]]
@@ -256,8 +260,8 @@ def build_message(m, k, port, ns):
     raw = b"".join(parts)
     if m["wire"] == "chunked":
         wire, hdr = _chunked(parts, m)
-        for key, dflt in (("size_fmt", "hex"), ("data_eol", "crlf"), ("last", "0"), ("final", "crlf")):
-            if m[key] != dflt and (parts or key in ("last", "final")):
+        for key, dflt in (("size_fmt", "hex"), ("data_eol", "crlf"), ("size_eol", "crlf"), ("last_eol", "crlf"), ("last", "0"), ("final", "crlf")):
+            if m.get(key, dflt) != dflt and (parts or key in ("last", "final", "last_eol")):
                 feats.add("chunk-%s:%s" % (key, m[key]))
         if m["trailer"]:
             feats.add("chunk-trailer")
